@@ -491,8 +491,9 @@ fn c01_eval(_sc: &str, case: &AnyCase, st: &mut RunStats, _t: Tier) -> Vec<Viola
         if lm.video.len() + lm.audio.len() >= 2 {
             st.nontrivial = Some(abstract_prog(case, &ex, st));
         }
-    } else if ex.first_panic().is_none() && case.ops.iter().any(|o| matches!(o, Op::Finish(_))) && case.faults.only_benign() && ex.build.is_ok() {
-        // a finish must succeed in these workloads (valid histories, benign sink)
+    } else if ex.first_panic().is_none() && case.ops.iter().any(|o| matches!(o, Op::Finish(_))) && case.faults.only_benign() && ex.build.is_ok() && !lm.inexact {
+        // a finish must succeed in these workloads (valid histories, benign sink; not judged when an accepted
+        // timestamp lies beyond 2^53 ticks - refusing what cannot be stated exactly is what C16 asks for)
         if let Some(i) = case.ops.iter().position(|o| matches!(o, Op::Finish(_))) {
             if !ex.ops[i].res.is_ok() {
                 out.push(v("C01", "finish-failed", oracle::normalise(&ex.ops[i].res.short()), format!("finish (op {}) of a valid history returned {}", i, ex.ops[i].res.short())));
